@@ -205,7 +205,7 @@ def parse_entry(txt):
 
 
 class Ids:
-    """let-binds every 32-byte value once so terms stay small"""
+    """names every 32-byte value once (global Definitions of the per-case preamble) so terms stay small"""
     def __init__(self):
         self.m = {}
     def __call__(self, n):
@@ -214,8 +214,8 @@ class Ids:
         if n not in self.m:
             self.m[n] = "h%d" % len(self.m)
         return self.m[n]
-    def lets(self):
-        return "".join(f"let {v} := 0x{k:x} in " for k, v in self.m.items())
+    def defs(self):
+        return "".join(f"Definition {v} : N := 0x{k:x}.\n" for k, v in self.m.items())
 
 
 def t_akey(s, I):
@@ -370,8 +370,9 @@ def targets_of(m, n_orig):
 
 
 def correspondence(r, cases, by_case, tier):
-    terms, meta = [], []
-    model_budget = 160 if tier == "quick" else 500     # alterations per case evaluated on the model
+    import concurrent.futures
+    jobs, meta_by_case = [], {}
+    model_budget = 150 if tier == "quick" else 600     # alterations per case evaluated on the model
     layout_checked = 0
     for i, c in enumerate(cases):
         lines = by_case.get(i, [])
@@ -382,13 +383,8 @@ def correspondence(r, cases, by_case, tier):
             continue
         if not ents or (ws[0], 0) not in ents or ents[(ws[0], 0)]["patch"] is None or any((w, 0) not in ents for w in ws):
             continue
-        # phase A: preimages of every real entry
-        allents = ";".join(x for w in ws for x in base[w])
-        termA = f"map preimages [{allents}]"
-        # phase B: alterations (sampled to the budget, always keeping structural edits and one of each class)
-        chosen = []
-        seen = set()
-        rest = []
+        # alterations evaluated on the model: every structural edit, at least one of each class, the rest sampled
+        chosen, seen, rest = [], set(), []
         for m in alts:
             if m["class"] not in seen or "m" not in m["spec"].split(","):
                 seen.add(m["class"]); chosen.append(m)
@@ -396,7 +392,9 @@ def correspondence(r, cases, by_case, tier):
                 rest.append(m)
         r.rng.shuffle(rest)
         chosen += rest[:max(0, model_budget - len(chosen))]
-        alt_terms = []
+        allnames = ";".join(f"b{w}_{t}" for w in ws for t in range(len(base[w])))
+        terms = [f"map preimages [{allnames}]"]
+        meta = []
         for m in chosen:
             w = int(m["w"])
             n_orig = int(sline[w]["n"])
@@ -412,32 +410,36 @@ def correspondence(r, cases, by_case, tier):
             tg = targets_of(m, n_orig)
             chain_t = "[" + ";".join("None" if x is None else f"Some {x}" for x in chain) + "]"
             roots_t = "[" + ";".join(f"({k},{I(v)})" for k, v in roots.items()) + "]"
-            others_t = "[" + ";".join(f"(wl{o}, {{| h_u0 := u0; h_boundary := bnd; h_entries := [{';'.join(f'b{o}_{t}' for t in range(len(base[o])))}] |}})" for o in other) + "]"
-            alt_terms.append(f"eval_alt {LC} tab wl{w} u0 bnd {others_t} [{';'.join(hist)}] {chain_t} {roots_t} "
-                             f"[{';'.join(str(t) for t in tg)}]")
-            meta.append((i, m, tg, roots))
-        e0 = ents[(ws[0], 0)]
-        u0 = e0["patch"]["warp"]
-        s0 = sline[ws[0]]["shadow"].split(",")[0]
-        bnd = int(s0.split(":")[1], 16)
-        binds = "".join(f"let b{w}_{t} := {x} in " for w in ws for t, x in enumerate(base[w]))
-        wlb = "".join(f"let wl{w} := {I(ents[(w, 0)]['wl'])} in " for w in ws if (w, 0) in ents)
-        allnames = ";".join(f"b{w}_{t}" for w in ws for t in range(len(base[w])))
-        body = (f"let u0 := {I(u0)} in let bnd := {I(bnd)} in {wlb}{binds}"
-                f"let tab := flat_map rows_of [{allnames}] in "
-                f"(map preimages [{allnames}], [{';'.join(alt_terms)}])")
-        terms.append((i, ws, ents, I.lets() + body, len(alt_terms)))
-    vals = []
-    try:
-        vals = vf.coq_eval("c05", PRE, [t[3] for t in terms], timeout=2400)
-    except vf.Broken as e:
-        r.is_broken("model-evaluation", e)
-    differing = 0
-    validated = 0
-    mi = 0
+            others_t = "[" + ";".join(f"(wl{o}, Build_whist u0 bnd [{';'.join(f'b{o}_{t}' for t in range(len(base[o])))}])" for o in other) + "]"
+            terms.append(f"eval_alt {LC} tab wl{w} u0 bnd {others_t} [{';'.join(hist)}] {chain_t} {roots_t} "
+                         f"[{';'.join(str(t) for t in tg)}]")
+            meta.append((m, tg, roots))
+        u0 = ents[(ws[0], 0)]["patch"]["warp"]
+        bnd = int(sline[ws[0]]["shadow"].split(",")[0].split(":")[1], 16)
+        u0n, bndn = I(u0), I(bnd)
+        wln = {w: I(ents[(w, 0)]["wl"]) for w in ws}
+        defs = I.defs()
+        defs += f"Definition u0 : N := {u0n}.\nDefinition bnd : N := {bndn}.\n"
+        defs += "".join(f"Definition wl{w} : N := {wln[w]}.\n" for w in ws)
+        defs += "".join(f"Definition b{w}_{t} : entry := {x}.\n" for w in ws for t, x in enumerate(base[w]))
+        defs += f"Definition tab : list (N * N) := Eval vm_compute in (flat_map rows_of [{allnames}]).\n"
+        jobs.append((i, ws, ents, defs, terms, meta))
+    shards = 2 if tier == "quick" else 4
+    def one(job):
+        i, ws, ents, defs, terms, meta = job
+        try:
+            return vf.coq_eval(f"c05_{i}", PRE + defs, terms, shards=min(shards, max(1, len(terms) // 8)), timeout=2400)
+        except vf.Broken as e:
+            return e
+    with concurrent.futures.ThreadPoolExecutor(max_workers=max(1, vf.NCPU // shards)) as ex:
+        results = list(ex.map(one, jobs))
+    differing = validated = nmodel = 0
     samples = []
-    for (i, ws, ents, _, nalt), v in zip(terms, vals):
-        pre, res = v
+    for (i, ws, ents, defs, terms, meta), vals in zip(jobs, results):
+        if isinstance(vals, Exception):
+            r.is_broken("model-evaluation", f"case {cases[i]}: {vals}")
+            continue
+        pre, res = vals[0], vals[1:]
         # phase A: blake3 of the model's preimages = the implementation's digests (pins the byte layouts)
         keys = [(w, t) for w in ws for t in sorted(tt for ww, tt in ents if ww == w)]
         hexes, want = [], []
@@ -458,15 +460,15 @@ def correspondence(r, cases, by_case, tier):
                 r.is_broken("correspondence:layout", f"case {cases[i]}: blake3(model {what} preimage) of entry w={w} t={t} is {g}, "
                             f"the implementation recorded {d:064x}")
         # phase B: predicted outcome of every alteration
-        for (sres, svc) in res:
-            ci, m, tg, roots = meta[mi]; mi += 1
+        for (m, tg, roots), (sres, svc) in zip(meta, res):
+            nmodel += 1
             seek_impl = dict(x.split("=", 1) for x in m["seek"].split(",")) if m["seek"] != "-" else {}
             ok = True
             for t, enc in zip(tg, sres):
                 mine = render_res(enc, roots, t, "seek")
                 if seek_impl.get(str(t)) != mine:
                     ok = False
-                    r.is_broken("correspondence:seek", f"case {cases[ci]} alteration {m['alt']} target {t}: implementation "
+                    r.is_broken("correspondence:seek", f"case {cases[i]} alteration {m['alt']} target {t}: implementation "
                                 f"{seek_impl.get(str(t))}, model {mine}")
             if svc[0] == 0:
                 mine = f"A{HERR.get(svc[1], '?')}@{svc[2]}"
@@ -477,15 +479,15 @@ def correspondence(r, cases, by_case, tier):
                 mine = "?"
             if m["svc"] != mine:
                 ok = False
-                r.is_broken("correspondence:append+replay_at", f"case {cases[ci]} alteration {m['alt']}: implementation "
+                r.is_broken("correspondence:append+replay_at", f"case {cases[i]} alteration {m['alt']}: implementation "
                             f"{m['svc']}, model {mine}")
             if ok:
                 validated += 1
             else:
                 differing += 1
             if len(samples) < 3 and m["class"] in ("entry-duplication", "atom-payload-byte", "parent-commit"):
-                samples.append(f"{cases[ci]} :: {m['alt']} seek={m['seek']} svc={m['svc']}")
-    r.phase("P4_correspondence", cases=len(terms), alterations_on_model=mi, differing=differing, layout_digests=layout_checked)
+                samples.append(f"{cases[i]} :: {m['alt']} seek={m['seek']} svc={m['svc']}")
+    r.phase("P4_correspondence", cases=len(jobs), alterations_on_model=nmodel, differing=differing, layout_digests=layout_checked)
     return layout_checked, validated, samples
 
 
